@@ -18,7 +18,7 @@
       stack, mark) an empty head and exactly the detail text the wrapper prints. *)
 From Coq Require Import Lia List Bool Permutation.
 From Errv Require Import Base.Str Redact.Markers Redact.Buffer Model.Err Model.Sem Model.Report
-     Proofs.StrFacts Proofs.FastIs Proofs.RedactFacts Proofs.EngineFacts Proofs.ShortText
+     Proofs.StrFacts Proofs.FastIs Proofs.RedactFacts Proofs.EngineFacts Proofs.HiddenNI Proofs.ShortText
      Proofs.HiddenVisible.
 Import ListNotations.
 
@@ -420,7 +420,7 @@ Proof.
       rewrite ?fl_cons; reflexivity.
   - rewrite fl_cons, fl_nil. reflexivity.
   - rewrite fl_cons, fl_nil. reflexivity.
-Time Qed.
+Qed.
 
 (* ================================================================== *)
 (* 4. the entries of the engine run: order, types, depths, own details  *)
@@ -1326,3 +1326,987 @@ Wraps: (8) attached stack trace
 Wraps: (9) boom
 Error types: (1) *issuelink.withIssueLink (2) *exthttp.withHTTPCode (3) *extgrpc.withGrpcCode (4) *assert.withAssertionFailure (5) *safedetails.withSafeDetails (6) *contexttags.withContext (7) *hintdetail.withDetail (8) *withstack.withStack (9) *errors.errorString".
 Proof. vm_compute. reflexivity. Qed.
+
+(* ================================================================== *)
+(* 8. the first line: the heads of the %+v run against those of the %v run *)
+(* ================================================================== *)
+(* ---- 8.1 state.Write in short mode (wantDetail = false) ---- *)
+Lemma write_loop_short_frame b : forall s chunk,
+  fs_wantDetail s = false ->
+  fs_wantDetail (write_loop b s chunk) = false /\
+  fs_hasDetail (write_loop b s chunk) = fs_hasDetail s /\
+  fs_headbuf (write_loop b s chunk) = fs_headbuf s.
+Proof.
+  induction b as [|c r IH]; intros s chunk H; cbn [write_loop].
+  - repeat split; assumption.
+  - destruct (c =? nl).
+    + cbn [fs_wantDetail set_needNewline set_buf]. rewrite H.
+      destruct (IH (set_needNewline (set_buf s (fs_buf s ++ rev chunk)) (S (fs_needNewline s))) [] H)
+        as (A & B & C).
+      repeat split; assumption.
+    + match goal with |- context [write_loop r ?s1 ?ch] =>
+        destruct (IH s1 ch) as (A & B & C);
+          [destruct (negb (Nat.eqb (fs_needNewline s) 0) && fs_notEmpty s); exact H|] end.
+      repeat split; try assumption.
+      * rewrite B. destruct (negb (Nat.eqb (fs_needNewline s) 0) && fs_notEmpty s); reflexivity.
+      * rewrite C. destruct (negb (Nat.eqb (fs_needNewline s) 0) && fs_notEmpty s); reflexivity.
+Qed.
+
+Lemma write_loop_short_ext b : forall s chunk,
+  fs_wantDetail s = false -> exists Z, fs_buf (write_loop b s chunk) = fs_buf s ++ Z.
+Proof.
+  induction b as [|c r IH]; intros s chunk H; cbn [write_loop].
+  - exists (rev chunk). reflexivity.
+  - destruct (c =? nl).
+    + cbn [fs_wantDetail set_needNewline set_buf]. rewrite H.
+      destruct (IH (set_needNewline (set_buf s (fs_buf s ++ rev chunk)) (S (fs_needNewline s))) [] H) as [Z E].
+      rewrite E. cbn [fs_buf set_needNewline set_buf]. exists (rev chunk ++ Z). now rewrite <- app_assoc.
+    + rewrite H. destruct (negb (Nat.eqb (fs_needNewline s) 0) && fs_notEmpty s).
+      * match goal with |- context [write_loop r ?s1 ?ch] => destruct (IH s1 ch H) as [Z E] end.
+        rewrite E. cbn [fs_buf set_notEmpty set_needNewline set_buf]. exists ([nl] ++ Z). now rewrite <- app_assoc.
+      * match goal with |- context [write_loop r ?s1 ?ch] => destruct (IH s1 ch H) as [Z E] end.
+        rewrite E. exists Z. reflexivity.
+Qed.
+
+(* the short-mode buffer once the %+v run has closed its head [H] because of a newline:
+   either nothing (but newlines) has followed, or a line break follows [H] in the buffer;
+   when [H] is empty the first byte after the newlines is written WITHOUT line break *)
+Inductive hform (H : str) : str -> bool -> nat -> str -> Prop :=
+| HF1 nn : H <> [] -> (1 <= nn)%nat -> hform H H true nn []
+| HF2 X ne nn chunk : hform H (H ++ nl :: X) ne nn chunk
+| HF3 nn : H = [] -> (1 <= nn)%nat -> hform H [] false nn []
+| HF4 c nn : H = [] -> (c =? nl) = false -> (1 <= nn)%nat -> hform H [] true nn [c]
+| HF5 c nn : H = [] -> (c =? nl) = false -> (1 <= nn)%nat -> hform H [c] true nn []
+| HF6 c X ne nn chunk : H = [] -> hform H (c :: nl :: X) ne nn chunk.
+
+Lemma short_evolve H b : forall s chunk,
+  fs_wantDetail s = false ->
+  hform H (fs_buf s) (fs_notEmpty s) (fs_needNewline s) chunk ->
+  hform H (fs_buf (write_loop b s chunk)) (fs_notEmpty (write_loop b s chunk))
+        (fs_needNewline (write_loop b s chunk)) [].
+Proof.
+  induction b as [|c r IH]; intros s chunk Hw HF.
+  - destruct s as [ro pl es bf hb la hd wd ne nn]; fsimp_in Hw; fsimp_in HF; subst wd.
+    cbn [write_loop]. fsimp.
+    inversion HF; subst; cbn [rev app]; rewrite ?app_nil_r.
+    + now constructor.
+    + rewrite <- app_assoc. cbn [app]. constructor.
+    + now constructor.
+    + now constructor.
+    + now constructor.
+    + now constructor.
+  - (* stable forms first *)
+    assert (Stable : (exists X, fs_buf s = H ++ nl :: X) \/ (H = [] /\ exists c0 X, fs_buf s = c0 :: nl :: X) ->
+                     hform H (fs_buf (write_loop (c :: r) s chunk)) (fs_notEmpty (write_loop (c :: r) s chunk))
+                           (fs_needNewline (write_loop (c :: r) s chunk)) []).
+    { destruct (write_loop_short_ext (c :: r) s chunk Hw) as [Z E]. rewrite E.
+      intros [[X ->]|[-> (c0 & X & ->)]].
+      - rewrite <- app_assoc. cbn [app]. constructor.
+      - cbn [app]. now constructor. }
+    destruct s as [ro pl es bf hb la hd wd ne nn]; fsimp_in Hw; fsimp_in HF; subst wd.
+    inversion HF; subst.
+    + (* HF1 *)
+      cbn [write_loop]. destruct (c =? nl) eqn:Ec; fsimp.
+      * apply IH; [reflexivity|]. fsimp. cbn [rev]. rewrite app_nil_r. constructor; [assumption|lia].
+      * replace (Nat.eqb nn 0) with false by (symmetry; apply PeanoNat.Nat.eqb_neq; lia).
+        cbn [negb andb]. fsimp. apply IH; [reflexivity|]. fsimp. constructor.
+    + apply Stable. left. now exists X.
+    + (* HF3 *)
+      cbn [write_loop]. destruct (c =? nl) eqn:Ec; fsimp.
+      * apply IH; [reflexivity|]. fsimp. cbn [rev app]. constructor; [reflexivity|lia].
+      * rewrite andb_false_r. fsimp. apply IH; [reflexivity|]. fsimp. now constructor.
+    + (* HF4 *)
+      cbn [write_loop]. destruct (c =? nl) eqn:Ec; fsimp.
+      * apply IH; [reflexivity|]. fsimp. cbn [rev app]. constructor; [reflexivity|assumption|lia].
+      * replace (Nat.eqb nn 0) with false by (symmetry; apply PeanoNat.Nat.eqb_neq; lia).
+        cbn [negb andb]. fsimp. apply IH; [reflexivity|]. fsimp.
+        change ([] ++ [nl]) with ([] ++ nl :: @nil N). constructor.
+    + (* HF5 *)
+      cbn [write_loop]. destruct (c =? nl) eqn:Ec; fsimp.
+      * apply IH; [reflexivity|]. fsimp. cbn [rev app]. constructor; [reflexivity|assumption|lia].
+      * replace (Nat.eqb nn 0) with false by (symmetry; apply PeanoNat.Nat.eqb_neq; lia).
+        cbn [negb andb]. fsimp. apply IH; [reflexivity|]. fsimp.
+        cbn [app]. now constructor.
+    + apply Stable. right. split; [reflexivity|]. now exists c0, X.
+Qed.
+
+(* ---- 8.2 state.Write in detail mode once the head is closed: the head stays ---- *)
+Lemma write_loop_frozen b : forall v chunk,
+  fs_hasDetail v = true ->
+  fs_hasDetail (write_loop b v chunk) = true /\ fs_headbuf (write_loop b v chunk) = fs_headbuf v.
+Proof.
+  induction b as [|c r IH]; intros v chunk H;
+    destruct v as [ro pl es bf hb la hd wd ne nn]; fsimp_in H; subst hd; cbn [write_loop].
+  - fsimp. split; reflexivity.
+  - destruct (c =? nl).
+    + fsimp. destruct wd; fsimp; apply IH; reflexivity.
+    + fsimp. destruct (negb (Nat.eqb nn 0) && ne); fsimp; apply IH; reflexivity.
+Qed.
+
+Definition frozen (K : fstate -> fstate) : Prop :=
+  forall st, fs_hasDetail st = true ->
+    fs_hasDetail (K st) = true /\ fs_headbuf (K st) = fs_headbuf st /\ fs_wantDetail (K st) = fs_wantDetail st.
+
+Lemma frozen_id : frozen (fun s => s).
+Proof. intros st H. repeat split; assumption. Qed.
+
+Lemma frozen_comp K1 K2 : frozen K1 -> frozen K2 -> frozen (fun s => K2 (K1 s)).
+Proof.
+  intros H1 H2 st H. destruct (H1 st H) as (A & B & C). destruct (H2 (K1 st) A) as (A2 & B2 & C2).
+  repeat split; congruence.
+Qed.
+
+Lemma frozen_write b : frozen (fun s => st_write s b).
+Proof.
+  intros st H. destruct b as [|c r]; [repeat split; assumption|].
+  unfold st_write. destruct (write_loop_frozen (c :: r) st [] H) as [A B].
+  repeat split; try assumption. apply write_loop_wd.
+Qed.
+
+Lemma frozen_sp ps : frozen (fun s => sp_print s ps).
+Proof. apply frozen_write. Qed.
+
+Lemma frozen_fold {A} (g : fstate -> A -> fstate) l :
+  (forall x, frozen (fun s => g s x)) -> frozen (fun s => fold_left g l s).
+Proof.
+  intro Hg. induction l as [|x l IH]; cbn [fold_left]; [apply frozen_id|].
+  exact (frozen_comp (fun s => g s x) (fun s => fold_left g l s) (Hg x) IH).
+Qed.
+
+Lemma frozen_ext K1 K2 : (forall s, K1 s = K2 s) -> frozen K1 -> frozen K2.
+Proof. intros E H st Hd. rewrite <- E. now apply H. Qed.
+
+Lemma frozen_print_tags tags first : frozen (fun s => print_tags s tags first).
+Proof.
+  apply (frozen_ext (fun s => fold_left st_write (tag_writes tags first) s)).
+  - intro s. now rewrite print_tags_writes.
+  - apply frozen_fold. intro x. apply frozen_write.
+Qed.
+
+Lemma frozen_print_safe_details ds comma : frozen (fun s => print_safe_details s ds comma).
+Proof.
+  apply (frozen_ext (fun s => fold_left st_write (safe_detail_writes ds comma) s)).
+  - intro s. now rewrite print_safe_details_writes.
+  - apply frozen_fold. intro x. apply frozen_write.
+Qed.
+
+Lemma frozen_opaque kind d : frozen (opaque_details kind d).
+Proof.
+  unfold opaque_details. intros st H. cbv zeta.
+  set (st2 := sp_print (sp_print st [PLit (nl :: lit kind)]) [PLit (nl :: lit "type name: "); PSafe (dt_orig d)]).
+  assert (F2 : fs_hasDetail st2 = true /\ fs_headbuf st2 = fs_headbuf st /\ fs_wantDetail st2 = fs_wantDetail st).
+  { exact (frozen_comp _ _ (frozen_sp _) (frozen_sp _) st H). }
+  clearbody st2. destruct F2 as (A & B & C).
+  assert (F3 : forall (l : list str) (acc : N * fstate),
+             fs_hasDetail (snd acc) = true ->
+             let r := fold_left
+               (fun (acc : N * fstate) (r : str) =>
+                  (fst acc + 1,
+                   sp_print (snd acc) [PLit (nl :: lit "reportable "); PSafe (dec_of_N (fst acc));
+                                       PLit ([colon; nl]); PSafe r])) l acc in
+             fs_hasDetail (snd r) = true /\ fs_headbuf (snd r) = fs_headbuf (snd acc) /\
+             fs_wantDetail (snd r) = fs_wantDetail (snd acc)).
+  { induction l as [|x l IH]; intros acc Ha; cbn [fold_left]; cbv zeta; [repeat split; assumption|].
+    destruct (frozen_sp [PLit (nl :: lit "reportable "); PSafe (dec_of_N (fst acc)); PLit ([colon; nl]); PSafe x]
+                        (snd acc) Ha) as (A1 & B1 & C1).
+    match goal with |- context [fold_left _ l ?a] => destruct (IH a A1) as (A2 & B2 & C2) end.
+    cbn [snd] in *. repeat split; congruence. }
+  destruct (F3 (dt_rep d) (0, st2) A) as (A3 & B3 & C3). cbn [snd] in *.
+  destruct (dt_full d) as [p|].
+  - match goal with |- context [sp_print ?s ?ps] => destruct (frozen_sp ps s A3) as (A4 & B4 & C4) end.
+    repeat split; congruence.
+  - repeat split; congruence.
+Qed.
+
+(* ---- 8.3 the two runs side by side: [s] in short mode, [v] in detail mode ---- *)
+Definition modes (s v : fstate) : Prop :=
+  fs_wantDetail s = false /\ fs_wantDetail v = true /\ fs_hasDetail s = false /\ fs_headbuf s = [].
+
+(* no newline, no Detail() so far: the buffers agree *)
+Definition simA (s v : fstate) (chunk : str) : Prop :=
+  fs_hasDetail v = false /\ fs_buf v = fs_buf s /\ fs_notEmpty v = fs_notEmpty s /\
+  fs_needNewline v = 0%nat /\ fs_needNewline s = 0%nat /\ fs_headbuf v = [] /\
+  (fs_notEmpty s = false -> fs_buf s = [] /\ chunk = []) /\
+  (fs_notEmpty s = true -> fs_buf s ++ rev chunk <> []).
+
+(* the %+v run has closed its head *)
+Definition simB (s v : fstate) : Prop :=
+  fs_hasDetail v = true /\ hform (fs_headbuf v) (fs_buf s) (fs_notEmpty s) (fs_needNewline s) [].
+
+Definition rel (s v : fstate) : Prop := modes s v /\ (simA s v [] \/ simB s v).
+
+Lemma write_loop_simA b : forall s v chunk,
+  modes s v -> simA s v chunk -> rel (write_loop b s chunk) (write_loop b v chunk).
+Proof.
+  induction b as [|c r IH]; intros s v chunk M A;
+    destruct s as [ro pl es bf hb la hd wd ne nn], v as [ro' pl' es' bf' hb' la' hd' wd' ne' nn'];
+    unfold modes, simA in M, A; fsimp_in M; fsimp_in A;
+    destruct M as (-> & -> & -> & ->); destruct A as (-> & -> & -> & -> & -> & -> & I1 & I2).
+  - cbn [write_loop]. split; [repeat split|]. left. unfold simA. fsimp.
+    repeat split; try reflexivity.
+    + destruct (I1 H) as [-> ->]. reflexivity.
+    + intro E. cbn [rev]. rewrite app_nil_r. now apply I2.
+  - cbn [write_loop]. destruct (c =? nl) eqn:Ec.
+    + fsimp.
+      match goal with |- rel (write_loop r ?s1 []) (write_loop r ?v1 []) =>
+        destruct (write_loop_short_frame r s1 [] eq_refl) as (F1 & F2 & F3);
+        destruct (write_loop_frozen r v1 [] eq_refl) as (G1 & G2);
+        pose proof (write_loop_wd r v1 []) as G3;
+        pose proof (short_evolve (bf ++ rev chunk) r s1 [] eq_refl) as SE
+      end.
+      cbn [fs_hasDetail fs_headbuf fs_wantDetail fs_buf fs_notEmpty fs_needNewline] in F2, F3, G2, G3, SE.
+      split; [repeat split; assumption|]. right. split; [exact G1|]. rewrite G2. apply SE.
+      destruct ne.
+      * constructor; [now apply I2|lia].
+      * destruct (I1 eq_refl) as [-> ->]. cbn [rev app]. constructor; [reflexivity|lia].
+    + fsimp. cbn [Nat.eqb negb andb]. fsimp. apply IH.
+      * repeat split.
+      * unfold simA. fsimp. repeat split; try reflexivity; try discriminate.
+        intros _. cbn [rev]. intro E. apply app_eq_nil in E as [_ E]. apply app_eq_nil in E as [_ E]. discriminate.
+Qed.
+
+Lemma rel_write s v b : rel s v -> rel (st_write s b) (st_write v b).
+Proof.
+  intros [M [A|B]].
+  - destruct b as [|c r]; [split; [exact M|now left]|]. unfold st_write. now apply write_loop_simA.
+  - destruct b as [|c r]; [split; [exact M|now right]|]. unfold st_write.
+    destruct M as (M1 & M2 & M3 & M4). destruct B as [B1 B2].
+    destruct (write_loop_short_frame (c :: r) s [] M1) as (F1 & F2 & F3).
+    destruct (write_loop_frozen (c :: r) v [] B1) as (G1 & G2).
+    split; [repeat split; try congruence; rewrite write_loop_wd; exact M2|].
+    right. split; [exact G1|]. rewrite G2. now apply short_evolve.
+Qed.
+
+(* the heads the two runs end with *)
+Definition trich (hs hv : str) : Prop :=
+  hs = hv \/ (exists Y, hs = hv ++ nl :: Y) \/
+  (hv = [] /\ (List.length hs <= 1)%nat) \/ (hv = [] /\ no_nl hs = false).
+
+Definition vhead (v : fstate) : str := if fs_hasDetail v then fs_headbuf v else fs_buf v.
+
+Definition fin (s v : fstate) : Prop := modes s v /\ trich (fs_buf s) (vhead v).
+
+Lemma hform_trich H bf ne nn : hform H bf ne nn [] -> trich bf H.
+Proof.
+  intro HF. inversion HF; subst.
+  - now left.
+  - right. left. now exists X.
+  - now left.
+  - right. right. left. split; [reflexivity|cbn [List.length]; lia].
+  - right. right. right. split; [reflexivity|].
+    cbn [no_nl forallb]. rewrite N.eqb_refl. cbn [negb andb]. apply andb_false_r.
+Qed.
+
+Lemma rel_fin s v : rel s v -> fin s v.
+Proof.
+  intros [M [A|B]]; split; try exact M.
+  - destruct A as (A1 & A2 & _). unfold vhead. rewrite A1, A2. now left.
+  - destruct B as [B1 B2]. unfold vhead. rewrite B1. now apply (hform_trich _ _ _ _ B2).
+Qed.
+
+(* p.Detail() at the end of a node's own part *)
+Lemma rel_detail_fin s v K : frozen K -> rel s v -> fin (if_detail s K) (if_detail v K).
+Proof.
+  intros FK [M R]. pose proof M as (M1 & M2 & M3 & M4).
+  rewrite (if_detail_short s K M1).
+  unfold if_detail, st_detail. rewrite M2. cbn [negb].
+  set (v1 := if fs_notEmpty v then set_needNewline v 1 else v).
+  assert (V1 : fs_hasDetail v1 = fs_hasDetail v /\ fs_headbuf v1 = fs_headbuf v /\ fs_buf v1 = fs_buf v /\
+               fs_wantDetail v1 = true).
+  { subst v1. destruct (fs_notEmpty v); repeat split; assumption. }
+  destruct V1 as (V1 & V2 & V3 & V4).
+  assert (SO : fs_hasDetail (switch_over v1) = true /\ fs_wantDetail (switch_over v1) = true /\
+               fs_headbuf (switch_over v1) = vhead v).
+  { unfold switch_over, vhead. rewrite <- V1. destruct (fs_hasDetail v1) eqn:E.
+    - rewrite E. repeat split; assumption.
+    - cbn [fs_hasDetail fs_wantDetail fs_headbuf]. repeat split; assumption. }
+  destruct SO as (S1 & S2 & S3). destruct (FK _ S1) as (K1 & K2 & K3).
+  split; [repeat split; try assumption; congruence|].
+  unfold vhead at 1. rewrite K1, K2, S3. exact (proj2 (rel_fin s v (conj M R))).
+Qed.
+
+(* a write of the %+v run only that starts with a newline closes the head where it is *)
+Lemma st_write_nl_closes v x :
+  fs_wantDetail v = true ->
+  fs_hasDetail (st_write v (nl :: x)) = true /\ fs_wantDetail (st_write v (nl :: x)) = true /\
+  fs_headbuf (st_write v (nl :: x)) = vhead v.
+Proof.
+  intro W. unfold st_write. rewrite write_loop_wd.
+  cbn [write_loop]. rewrite N.eqb_refl.
+  match goal with |- context [write_loop x ?v2 []] => set (v2' := v2) end.
+  assert (E : fs_hasDetail v2' = true /\ fs_headbuf v2' = vhead v).
+  { subst v2'. destruct v as [ro pl es bf hb la hd wd ne nn]; fsimp_in W; subst wd.
+    unfold vhead. fsimp. destruct hd; fsimp; cbn [rev]; rewrite ?app_nil_r; split; reflexivity. }
+  destruct E as [E1 E2]. destruct (write_loop_frozen x v2' [] E1) as [A B].
+  repeat split; [exact A|exact W|congruence].
+Qed.
+
+Lemma fin_frozen_v s v K : frozen K -> fs_hasDetail v = true -> fin s v -> fin s (K v).
+Proof.
+  intros FK Hd [(M1 & M2 & M3 & M4) T]. destruct (FK v Hd) as (K1 & K2 & K3).
+  split; [repeat split; try assumption; congruence|].
+  unfold vhead in *. rewrite K1, K2. now rewrite Hd in T.
+Qed.
+
+Lemma rel_frames_fin s v (xs : list str) :
+  rel s v -> fin s (fold_left (fun st x => st_write st (nl :: x)) xs v).
+Proof.
+  intro R. destruct xs as [|x xs]; [now apply rel_fin|]. cbn [fold_left].
+  pose proof (rel_fin s v R) as [M T]. pose proof M as (M1 & M2 & M3 & M4).
+  destruct (st_write_nl_closes v x M2) as (A & B & C).
+  apply (fin_frozen_v s (st_write v (nl :: x)) (fun st => fold_left (fun st x => st_write st (nl :: x)) xs st)).
+  - apply frozen_fold. intro y. apply frozen_write.
+  - exact A.
+  - split; [repeat split; assumption|]. unfold vhead at 1. now rewrite A, C.
+Qed.
+
+(* ---- 8.4 the shape of a node's own part: writes, then (possibly) p.Detail() ---- *)
+Inductive headfun : (fstate -> fstate) -> Prop :=
+| hf_id : headfun (fun s => s)
+| hf_write f b : headfun f -> headfun (fun s => st_write (f s) b).
+
+Lemma hf_sp f ps : headfun f -> headfun (fun s => sp_print (f s) ps).
+Proof. intro H. exact (hf_write f (sprint_pieces ps) H). Qed.
+
+Lemma headfun_rel f : headfun f -> forall s v, rel s v -> rel (f s) (f v).
+Proof. induction 1; intros s v R; [exact R|]. apply rel_write. now apply IHheadfun. Qed.
+
+Lemma headfun_cfg f : headfun f -> forall s, cfg (f s) = cfg s.
+Proof. induction 1; intro s; [reflexivity|]. now rewrite st_write_cfg. Qed.
+
+Lemma headfun_ext f g : (forall s, f s = g s) -> headfun f -> forall s v, rel s v -> rel (g s) (g v).
+Proof. intros E H s v R. rewrite <- !E. now apply headfun_rel. Qed.
+
+(* what comes after the head: nothing, p.Detail() and detail writes, or (pkg/errors
+   fundamental inside a chain, '+' flag) the stack frames, each starting with a newline *)
+Record tailfun (T : fstate -> fstate) : Prop := mktail {
+  tf_fin : forall s v, rel s v -> fs_plus s = false -> fin (T s) (T v);
+  tf_cfg : forall s, cfg (T s) = cfg s }.
+
+Lemma tail_id : tailfun (fun s => s).
+Proof. split; [intros s v R _; now apply rel_fin|reflexivity]. Qed.
+
+Lemma tail_detail K : frozen K -> (forall s, cfg (K s) = cfg s) -> tailfun (fun s => if_detail s K).
+Proof.
+  intros FK CK. split.
+  - intros s v R _. now apply rel_detail_fin.
+  - intro s. now apply if_detail_cfg.
+Qed.
+
+Lemma fin_set_last s v l1 l2 : fin s v -> fin (set_last s l1) (set_last v l2).
+Proof. intros [M T]. split; [exact M|exact T]. Qed.
+
+Lemma tail_frames stk :
+  tailfun (fun s => set_last (if fs_plus s then fold_left (fun st f => st_write st (nl :: print_frame f)) stk s else s) stk).
+Proof.
+  split.
+  - intros s v R P. rewrite P. apply fin_set_last. destruct (fs_plus v); [|now apply rel_fin].
+    assert (E : forall l st, fold_left (fun st x => st_write st (nl :: x)) (List.map print_frame l) st =
+                             fold_left (fun st f => st_write st (nl :: print_frame f)) l st).
+    { induction l as [|f l IH]; intro st; cbn [List.map fold_left]; [reflexivity|apply IH]. }
+    rewrite <- E. now apply rel_frames_fin.
+  - intro s. change (cfg (set_last ?x stk)) with (cfg x).
+    destruct (fs_plus s); [|reflexivity].
+    rewrite fold_left_cfg; [reflexivity|]. intros st f. apply st_write_cfg.
+Qed.
+
+Definition bodyshape (body : bool -> fstate -> body_res) : Prop :=
+  forall o, exists f T red el seen,
+    (forall st, body o st = mkbody (T (f st)) red el seen) /\ headfun f /\ tailfun T.
+
+Ltac hf := repeat first [ apply hf_id | apply hf_sp | apply hf_write ].
+
+(* the default branch of formatRecursive *)
+Lemma default_body_shape e text sent il hm ct :
+  exists f red el seen,
+    (forall st, default_body e text sent il hm ct st = mkbody (f st) red el seen) /\ headfun f.
+Proof.
+  unfold default_body. destruct (il && sent).
+  { do 4 eexists. split; [intro st; reflexivity|hf]. }
+  assert (FS : exists f red el seen,
+             (forall st, (let '(st1, el) := format_simple st text ct in mkbody st1 false (el || hm) false)
+                         = mkbody (f st) red el seen) /\ headfun f).
+  { unfold format_simple. destruct ct as [cm|].
+    - destruct (extract_prefix text cm) as [p mt]. do 4 eexists. split; [intro st; reflexivity|hf].
+    - do 4 eexists. split; [intro st; reflexivity|hf]. }
+  destruct e as [i k|i w c| | | | |]; try exact FS.
+  - destruct k as [| | | | | | | | | |?|u ? ? ?]; try exact FS;
+      try (do 4 eexists; split; [intro st; reflexivity|hf]).
+    destruct u; try exact FS; do 4 eexists; (split; [intro st; reflexivity|hf]).
+  - destruct w as [| | | | | | | | | | | | | | | | | | | |op net src addr|]; try exact FS;
+      try (do 4 eexists; split; [intro st; reflexivity|hf]).
+    destruct net, src, addr; hf.
+Qed.
+
+Lemma default_body_bodyshape e text sent il hm ct :
+  bodyshape (fun _ st => default_body e text sent il hm ct st).
+Proof.
+  intro o. destruct (default_body_shape e text sent il hm ct) as (f & red & el & seen & E & H).
+  exists f, (fun s => s), red, el, seen. split; [exact E|]. split; [exact H|apply tail_id].
+Qed.
+
+Lemma frozen_sp_after f ps : frozen f -> frozen (fun s => sp_print (f s) ps).
+Proof. intro H. exact (frozen_comp f (fun s => sp_print s ps) H (frozen_sp ps)). Qed.
+Lemma frozen_write_after f b : frozen f -> frozen (fun s => st_write (f s) b).
+Proof. intro H. exact (frozen_comp f (fun s => st_write s b) H (frozen_write b)). Qed.
+Lemma frozen_pl_after f b : frozen f -> frozen (fun s => pl_print (f s) b).
+Proof. apply frozen_write_after. Qed.
+Lemma frozen_tags_after f tags first : frozen f -> frozen (fun s => print_tags (f s) tags first).
+Proof. intro H. exact (frozen_comp f (fun s => print_tags s tags first) H (frozen_print_tags tags first)). Qed.
+Lemma frozen_sd_after f ds comma : frozen f -> frozen (fun s => print_safe_details (f s) ds comma).
+Proof. intro H. exact (frozen_comp f (fun s => print_safe_details s ds comma) H (frozen_print_safe_details ds comma)). Qed.
+
+Ltac fz := repeat first [ apply frozen_id | apply frozen_sp_after | apply frozen_pl_after | apply frozen_write_after
+                        | apply frozen_tags_after | apply frozen_sd_after | apply frozen_opaque ].
+
+Lemma format_simple_shape text ct :
+  exists f el, (forall st, format_simple st text ct = (f st, el)) /\ headfun f.
+Proof.
+  unfold format_simple. destruct ct as [cm|].
+  - destruct (extract_prefix text cm) as [p mt]. do 2 eexists. split; [intro st; reflexivity|hf].
+  - do 2 eexists. split; [intro st; reflexivity|hf].
+Qed.
+
+(* the library wrappers *)
+Lemma wrap_body_shape w :
+  (exists f T nn red, (forall st, wrap_body w st = Some (T (f st), nn, red)) /\ headfun f /\ tailfun T) \/
+  (forall st, wrap_body w st = None).
+Proof.
+  destruct w; cbn [wrap_body]; try (right; reflexivity); left.
+  - (* WStack *)
+    exists (fun s => s), (fun s => if_detail s (fun s0 => sp_print s0 [PLit (lit "attached stack trace")])), false, true.
+    split; [reflexivity|]. split; [hf|]. apply tail_detail; [fz|intro s; cf].
+  - exists (fun s => sp_print s [PRaw rp]), (fun s => s), false, true.
+    split; [reflexivity|]. split; [hf|apply tail_id].
+  - exists (fun s => sp_print s [PRaw rm]), (fun s => s), true, true.
+    split; [reflexivity|]. split; [hf|apply tail_id].
+  - exists (fun s => s), (fun s => if_detail s (fun s0 => pl_print s0 h)), false, false.
+    split; [reflexivity|]. split; [hf|]. apply tail_detail; [fz|intro s; cf].
+  - exists (fun s => s), (fun s => if_detail s (fun s0 => pl_print s0 d)), false, false.
+    split; [reflexivity|]. split; [hf|]. apply tail_detail; [fz|intro s; cf].
+  - (* issue link *)
+    eexists (fun s => s), (fun s => if_detail s _), false, true.
+    split; [intro st; reflexivity|]. split; [hf|]. apply tail_detail.
+    + destruct url, det; fz.
+    + intro s. destruct url, det; cf.
+  - eexists (fun s => s), (fun s => if_detail s _), false, true.
+    split; [intro st; reflexivity|]. split; [hf|]. apply tail_detail; [fz|intro s; cf].
+  - eexists (fun s => s), (fun s => if_detail s _), false, true.
+    split; [intro st; reflexivity|]. split; [hf|]. apply tail_detail; [fz|intro s; cf].
+  - (* tags *)
+    exists (fun s => s),
+           (fun s => if_detail s (fun s0 =>
+              if negb (match tags with [] => true | _ => false end)
+              then sp_print (print_tags (sp_print s0 [PLit (lit "tags: [")]) tags true) [PLit (lit "]")]
+              else s0)), false, true.
+    split; [|split; [hf|]].
+    + intro st. unfold if_detail. destruct (st_detail st) as [st1 dd].
+      destruct dd, tags; reflexivity.
+    + apply tail_detail.
+      * destruct tags; cbn [negb]; fz.
+      * intro s. destruct tags; cbn [negb]; cf.
+  - eexists (fun s => s), (fun s => if_detail s _), false, true.
+    split; [intro st; reflexivity|]. split; [hf|]. apply tail_detail; [fz|intro s; cf].
+  - (* mark *)
+    eexists (fun s => s), (fun s => if_detail s _), false, true.
+    split; [intro st; reflexivity|]. split; [hf|]. apply tail_detail; [cbv zeta; fz|intro s; cbv zeta; cf].
+  - (* safe details *)
+    eexists (fun s => s), (fun s => if_detail s _), false, true.
+    split; [intro st; reflexivity|]. split; [hf|]. apply tail_detail.
+    + cbv zeta. destruct (Nat.eqb (List.length ds) 1); fz.
+    + intro s. cbv zeta. destruct (Nat.eqb (List.length ds) 1); cf.
+  - eexists (fun s => s), (fun s => if_detail s _), false, true.
+    split; [intro st; reflexivity|]. split; [hf|]. apply tail_detail; [fz|intro s; cf].
+  - eexists (fun s => s), (fun s => if_detail s _), false, true.
+    split; [intro st; reflexivity|]. split; [hf|]. apply tail_detail; [fz|intro s; cf].
+Qed.
+
+(* ---- 8.5 entries of the two runs ---- *)
+Definition erel (es ev : fentry) : Prop :=
+  fe_elide es = fe_elide ev /\ fe_red es = fe_red ev /\ trich (fe_head es) (fe_head ev).
+
+Definition runrel (S V : fstate) : Prop :=
+  fs_redout S = fs_redout V /\ fs_plus S = false /\ fs_buf S = [] /\ fs_buf V = [] /\
+  Forall2 erel (fs_entries S) (fs_entries V).
+
+Definition sim_inv (x : err) : Prop :=
+  forall o w k s0 v0, runrel s0 v0 ->
+    runrel (fst (ns_fmt (sem x) o false w k s0)) (fst (ns_fmt (sem x) o true w k v0)).
+
+Lemma strip_cons_nl X : strip_markers (nl :: X) = nl :: strip_markers X.
+Proof.
+  unfold strip_markers. rewrite tokenize_cons_plain by reflexivity. reflexivity.
+Qed.
+
+Lemma strip_single c : strip_markers [c] = [c].
+Proof. reflexivity. Qed.
+
+Lemma no_nl_false_has s : no_nl s = false -> exists a b, s = a ++ nl :: b.
+Proof.
+  induction s as [|c r IH]; [discriminate|]. cbn [no_nl forallb]. intro H.
+  destruct (c =? nl) eqn:E.
+  - apply N.eqb_eq in E. subst c. now exists [], r.
+  - cbn [negb andb] in H. destruct (IH H) as (a & b & ->). now exists (c :: a), b.
+Qed.
+
+Lemma trich_strip hs hv : trich hs hv -> trich (strip_markers hs) (strip_markers hv).
+Proof.
+  intros [->|[[Y ->]|[[-> L]|[-> N]]]].
+  - now left.
+  - right. left. rewrite strip_app_nl_head by (right; eexists; reflexivity).
+    rewrite strip_cons_nl. eexists. reflexivity.
+  - right. right. left. split; [reflexivity|].
+    destruct hs as [|c [|c2 r]]; cbn [List.length] in L; try lia.
+    + change (strip_markers []) with (@nil N). cbn [List.length]. lia.
+    + rewrite strip_single. cbn [List.length]. lia.
+  - right. right. right. split; [reflexivity|].
+    destruct (no_nl_false_has _ N) as (a & b & ->).
+    rewrite strip_app_nl_head by (right; eexists; reflexivity). rewrite strip_cons_nl.
+    rewrite no_nl_app. cbn [no_nl forallb]. rewrite N.eqb_refl. cbn [negb andb]. apply andb_false_r.
+Qed.
+
+Lemma collect_entry_redflag st ty r w k : fe_red (collect_entry st ty r w k) = r && fs_redout st.
+Proof.
+  unfold collect_entry.
+  destruct (fs_wantDetail st), (fs_hasDetail st), r, (fs_redout st); reflexivity.
+Qed.
+
+Lemma collect_entry_head_s st ty r w k :
+  fs_wantDetail st = false -> fs_headbuf st = [] ->
+  fe_head (collect_entry st ty r w k) = if r && negb (fs_redout st) then strip_markers (fs_buf st) else fs_buf st.
+Proof.
+  intros H1 H2. unfold collect_entry. rewrite H1, H2. destruct r, (fs_redout st); reflexivity.
+Qed.
+
+Lemma collect_entry_head_v st ty r w k :
+  fs_wantDetail st = true ->
+  fe_head (collect_entry st ty r w k) = if r && negb (fs_redout st) then strip_markers (vhead st) else vhead st.
+Proof.
+  intros H1. unfold collect_entry, vhead. rewrite H1.
+  destruct (fs_hasDetail st), r, (fs_redout st); reflexivity.
+Qed.
+
+Lemma mark_first_erel n : forall Es Ev, Forall2 erel Es Ev -> Forall2 erel (mark_first n Es) (mark_first n Ev).
+Proof.
+  induction n as [|n IH]; intros Es Ev H; [destruct H; [constructor|now constructor]|].
+  destruct H as [|es ev Es Ev (A & B & C) H]; cbn [mark_first]; constructor; [|now apply IH].
+  repeat split; assumption.
+Qed.
+
+Lemma fold_multi_sim depth cs :
+  Forall sim_inv cs ->
+  forall accs accv, runrel (fst accs) (fst accv) -> snd accs = snd accv ->
+    let rs := fold_left
+      (fun (acc : fstate * nat) (k : nsem) =>
+         let '(s', m) := ns_fmt k false false true (S depth) (fst acc) in (s', (snd acc + m)%nat))
+      (List.map sem cs) accs in
+    let rv := fold_left
+      (fun (acc : fstate * nat) (k : nsem) =>
+         let '(s', m) := ns_fmt k false true true (S depth) (fst acc) in (s', (snd acc + m)%nat))
+      (List.map sem cs) accv in
+    runrel (fst rs) (fst rv) /\ snd rs = snd rv.
+Proof.
+  induction 1 as [|c cs Hc Hcs IH]; intros accs accv R N; cbn [List.map fold_left]; cbv zeta.
+  - split; assumption.
+  - pose proof (Hc false true (S depth) (fst accs) (fst accv) R) as R1.
+    pose proof (fmt_count c false false true (S depth) (fst accs)) as N1.
+    pose proof (fmt_count c false true true (S depth) (fst accv)) as N2.
+    destruct (ns_fmt (sem c) false false true (S depth) (fst accs)) as [s1 m1].
+    destruct (ns_fmt (sem c) false true true (S depth) (fst accv)) as [v1 m2].
+    cbn [fst snd] in *. apply IH; cbn [fst snd]; [exact R1|congruence].
+Qed.
+
+Lemma format_node_sim ty (single : option err) (cs : list err) own body :
+  match single with Some c => sim_inv c | None => True end ->
+  Forall sim_inv cs ->
+  bodyshape body ->
+  forall o w k s0 v0, runrel s0 v0 ->
+    let f := format_node ty (match single with Some c => Some (sem c) | None => None end)
+                         (List.map sem cs) own body in
+    runrel (fst (f o false w k s0)) (fst (f o true w k v0)).
+Proof.
+  intros Hs Hm Hb o w k s0 v0 R. cbv zeta. unfold format_node.
+  (* the single cause *)
+  assert (H1 : exists S1 V1 n1,
+             match match single with Some c => Some (sem c) | None => None end with
+             | Some sc => ns_fmt sc false false w (S k) s0
+             | None => (s0, 0%nat)
+             end = (S1, n1) /\
+             match match single with Some c => Some (sem c) | None => None end with
+             | Some sc => ns_fmt sc false true w (S k) v0
+             | None => (v0, 0%nat)
+             end = (V1, n1) /\ runrel S1 V1).
+  { destruct single as [c|].
+    - pose proof (Hs false w (S k) s0 v0 R) as R1.
+      pose proof (fmt_count c false false w (S k) s0) as N1.
+      pose proof (fmt_count c false true w (S k) v0) as N2.
+      destruct (ns_fmt (sem c) false false w (S k) s0) as [S1 m1].
+      destruct (ns_fmt (sem c) false true w (S k) v0) as [V1 m2]. cbn [fst snd] in *.
+      exists S1, V1, m1. split; [reflexivity|]. split; [f_equal; congruence|exact R1].
+    - exists s0, v0, 0%nat. split; [reflexivity|]. split; [reflexivity|exact R]. }
+  destruct H1 as (S1 & V1 & n1 & -> & -> & R1).
+  pose proof (fold_multi_sim k cs Hm (S1, n1) (V1, n1) R1 eq_refl) as H2. cbv zeta in H2.
+  destruct (fold_left _ (List.map sem cs) (S1, n1)) as [S2 n2].
+  destruct (fold_left _ (List.map sem cs) (V1, n1)) as [V2 n2'].
+  cbn [fst snd] in H2. destruct H2 as [R2 <-].
+  destruct R2 as (Q1 & Q2 & Q3 & Q4 & Q5).
+  cbv zeta. rewrite Q3, Q4.
+  change (mkst (fs_redout S2) (fs_plus S2) (fs_entries S2) [] [] (fs_last S2) false false false 0)
+    with (fresh (fs_redout S2) (fs_plus S2) (fs_entries S2) (fs_last S2) false).
+  change (mkst (fs_redout V2) (fs_plus V2) (fs_entries V2) [] [] (fs_last V2) false true false 0)
+    with (fresh (fs_redout V2) (fs_plus V2) (fs_entries V2) (fs_last V2) true).
+  set (S3 := fresh (fs_redout S2) (fs_plus S2) (fs_entries S2) (fs_last S2) false).
+  set (V3 := fresh (fs_redout V2) (fs_plus V2) (fs_entries V2) (fs_last V2) true).
+  destruct (Hb o) as (f & T & red & el & seen & E & HF & HT).
+  rewrite !E. cbn [br_st br_red br_elide br_seen].
+  assert (R3 : rel S3 V3).
+  { split; [repeat split|]. left. unfold simA. cbn [S3 V3 fresh fs_hasDetail fs_buf fs_notEmpty fs_needNewline fs_headbuf].
+    repeat split; try reflexivity; discriminate. }
+  pose proof (headfun_rel f HF S3 V3 R3) as R4.
+  pose proof (headfun_cfg f HF S3) as C4s. pose proof (headfun_cfg f HF V3) as C4v.
+  assert (P4 : fs_plus (f S3) = false).
+  { unfold cfg in C4s. injection C4s as _ P _ _. rewrite P. exact Q2. }
+  pose proof (tf_fin T HT _ _ R4 P4) as F5.
+  pose proof (tf_cfg T HT (f S3)) as C5s. pose proof (tf_cfg T HT (f V3)) as C5v.
+  rewrite C4s in C5s. rewrite C4v in C5v. clear C4s C4v R4 P4 R3.
+  unfold cfg in C5s, C5v. cbn [S3 V3 fresh fs_redout fs_plus fs_entries fs_wantDetail] in C5s, C5v.
+  injection C5s as A1 A2 A3 A4. injection C5v as B1 B2 B3 B4.
+  set (S5 := T (f S3)) in *. set (V5 := T (f V3)) in *. clearbody S5 V5. clear S3 V3 E.
+  set (S6 := if el then elide_short S5 n2 else S5).
+  set (V6 := if el then elide_short V5 n2 else V5).
+  assert (F6 : fin S6 V6 /\ fs_redout S6 = fs_redout S2 /\ fs_redout V6 = fs_redout V2 /\ fs_plus S6 = false /\
+               Forall2 erel (fs_entries S6) (fs_entries V6)).
+  { subst S6 V6. destruct el.
+    - unfold elide_short. split; [exact F5|]. cbn [fs_redout fs_plus fs_entries set_entries].
+      split; [exact A1|]. split; [exact B1|]. split; [congruence|].
+      rewrite A3, B3. now apply mark_first_erel.
+    - split; [exact F5|]. split; [exact A1|]. split; [exact B1|]. split; [congruence|].
+      rewrite A3, B3. exact Q5. }
+  clearbody S6 V6. destruct F6 as ([M Tr] & G1 & G2 & G3 & G4). destruct M as (M1 & M2 & M3 & M4).
+  set (es0 := collect_entry S6 ty red w k). set (ev0 := collect_entry V6 ty red w k).
+  assert (E0 : erel es0 ev0).
+  { subst es0 ev0. repeat split.
+    - now rewrite !collect_entry_elide.
+    - rewrite !collect_entry_redflag. congruence.
+    - rewrite collect_entry_head_s by assumption. rewrite collect_entry_head_v by assumption.
+      rewrite G1, G2, Q1. destruct (red && negb (fs_redout V2)); [now apply trich_strip|exact Tr]. }
+  assert (Fin : forall es1 ev1 S7 V7,
+             erel es1 ev1 -> fs_redout S7 = fs_redout S6 -> fs_redout V7 = fs_redout V6 ->
+             fs_plus S7 = false -> fs_entries S7 = fs_entries S6 -> fs_entries V7 = fs_entries V6 ->
+             runrel (fst (set_buf (set_entries S7 (es1 :: fs_entries S7)) [], S n2))
+                    (fst (set_buf (set_entries V7 (ev1 :: fs_entries V7)) [], S n2))).
+  { intros es1 ev1 S7 V7 X1 X2 X3 X4 X5 X6. unfold runrel.
+    cbn [fst set_buf set_entries fs_redout fs_plus fs_buf fs_entries].
+    repeat split; try assumption; [congruence|]. rewrite X5, X6. now constructor. }
+  destruct seen; [now apply Fin|].
+  destruct own as [stk|]; [|now apply Fin].
+  destruct (elide_shared (fs_last S6) stk) as [s1 el1]. destruct (elide_shared (fs_last V6) stk) as [s2 el2].
+  apply Fin; try reflexivity; try assumption.
+Qed.
+
+(* ---- 8.6 every node has that shape ---- *)
+Lemma join_headfun (scs : list nsem) : forall (b : bool) f,
+  headfun f ->
+  headfun (fun st => snd (fold_left
+     (fun (acc : bool * fstate) (sc : nsem) =>
+        let s0 := if fst acc then snd acc else sp_print (snd acc) [PUnsafe [nl]] in
+        (false, sp_print s0 [nested_v sc])) scs (b, f st))).
+Proof.
+  induction scs as [|sc scs IH]; intros b f Hf; cbn [fold_left snd]; [exact Hf|].
+  cbv zeta. cbn [fst snd].
+  destruct b.
+  - exact (IH false (fun st => sp_print (f st) [nested_v sc]) (hf_sp _ _ Hf)).
+  - exact (IH false (fun st => sp_print (sp_print (f st) [PUnsafe [nl]]) [nested_v sc]) (hf_sp _ _ (hf_sp _ _ Hf))).
+Qed.
+
+Lemma leaf_bodyshape i k text sent :
+  bodyshape (fun (outermost : bool) (st : fstate) =>
+      match k with
+      | LLeafError rm => body_safe (sp_print st [PRaw rm]) true
+      | LUnimpl m url det =>
+        let st1 := sp_print st [PUnsafe m] in
+        body_safe (if_detail st1 (fun s =>
+          let s1 := sp_print s [PLit (lit "unimplemented")] in
+          let s2 := match url with [] => s1 | _ => sp_print s1 [PLit (nl :: lit "issue: "); PSafe url] end in
+          match det with [] => s2 | _ => sp_print s2 [PLit (nl :: lit "detail: "); PSafe det] end)) true
+      | LPkgFund m stk =>
+        if negb outermost then mkbody (set_last (fundamental_format st m stk) stk) false false true
+        else let '(st1, el) := format_simple st text None in mkbody st1 false el false
+      | _ => default_body (Leaf i k) text sent true false None st
+      end).
+Proof.
+  intro o. destruct k as [| |m stk| | |rm|m url det| | | | |];
+    try exact (default_body_bodyshape _ _ _ _ _ _ o).
+  - (* LPkgFund *)
+    destruct (negb o).
+    + exists (fun s => st_write s m),
+             (fun s => set_last (if fs_plus s then fold_left (fun st f => st_write st (nl :: print_frame f)) stk s else s) stk),
+             false, false, true.
+      split; [|split; [hf|apply tail_frames]].
+      intro st. unfold fundamental_format. cbv zeta.
+      pose proof (st_write_cfg st m) as C. unfold cfg in C. injection C as _ P _ _. rewrite P. reflexivity.
+    + exists (fun s => st_write s text), (fun s => s), false, false, false.
+      split; [reflexivity|split; [hf|apply tail_id]].
+  - (* LLeafError *)
+    exists (fun s => sp_print s [PRaw rm]), (fun s => s), true, true, false.
+    split; [reflexivity|split; [hf|apply tail_id]].
+  - (* LUnimpl *)
+    eexists (fun s => sp_print s [PUnsafe m]), (fun s => if_detail s _), true, true, false.
+    split; [intro st; reflexivity|]. split; [hf|]. apply tail_detail.
+    + cbv zeta. destruct url, det; fz.
+    + intro s. cbv zeta. destruct url, det; cf.
+Qed.
+
+Lemma wrap_bodyshape i w c text sent ct :
+  bodyshape (fun (outermost : bool) (st : fstate) =>
+      match wrap_body w st with
+      | Some (st1, next_nil, red) => mkbody st1 red next_nil false
+      | None =>
+        match w with
+        | WPkgMsg _ | WPkgStack _ =>
+          let '(st1, el) := format_simple st text (Some ct) in mkbody st1 false el false
+        | _ => default_body (Wrap i w c) text sent false false (Some ct) st
+        end
+      end).
+Proof.
+  intro o. destruct (wrap_body_shape w) as [(f & T & nn & red & E & HF & HT)|EN].
+  - exists f, T, red, nn, false. split; [|split; assumption]. intro st. cbv beta. now rewrite E.
+  - assert (FS : exists f T red el seen,
+               (forall st, (let '(st1, el) := format_simple st text (Some ct) in mkbody st1 false el false)
+                           = mkbody (T (f st)) red el seen) /\ headfun f /\ tailfun T).
+    { destruct (format_simple_shape text (Some ct)) as (f & el & E & HF).
+      exists f, (fun s => s), false, el, false. split; [|split; [exact HF|apply tail_id]].
+      intro st. now rewrite E. }
+    destruct w; try (specialize (EN (st_init false false)); discriminate EN);
+      cbn [wrap_body]; try exact FS; exact (default_body_bodyshape _ _ _ _ _ _ o).
+Qed.
+
+Lemma sem_sim e : sim_inv e.
+Proof.
+  induction e using err_ind'; intros oo ww kk s0 v0 R.
+  - (* Leaf *)
+    cbn [sem ns_fmt].
+    apply (format_node_sim _ None []); [exact I|constructor| |exact R].
+    apply leaf_bodyshape.
+  - (* Wrap *)
+    cbn [sem ns_fmt].
+    apply (format_node_sim _ (Some e) []); [exact IHe|constructor| |exact R].
+    apply wrap_bodyshape.
+  - (* Second *)
+    cbn [sem ns_fmt].
+    apply (format_node_sim _ (Some e1) []); [exact IHe1|constructor| |exact R].
+    intro o. eexists (fun s => s), (fun s => if_detail s _), true, false, false.
+    split; [intro st; reflexivity|]. split; [hf|]. apply tail_detail; [fz|intro s; cf].
+  - (* Barrier *)
+    cbn [sem ns_fmt].
+    apply (format_node_sim _ None []); [exact I|constructor| |exact R].
+    intro o. eexists (fun s => sp_print s [PRaw m]), (fun s => if_detail s _), true, true, false.
+    split; [intro st; reflexivity|]. split; [hf|]. apply tail_detail; [fz|intro s; cf].
+  - (* Multi *)
+    destruct k; cbn [sem ns_fmt].
+    + apply (format_node_sim _ None cs); [exact I|exact H| |exact R].
+      intro o. eexists _, (fun s => s), true, true, false.
+      split; [intro st; reflexivity|]. split; [|apply tail_id].
+      exact (join_headfun (List.map sem cs) true (fun s => s) hf_id).
+    + apply (format_node_sim _ None cs); [exact I|exact H| |exact R].
+      apply default_body_bodyshape.
+    + apply (format_node_sim _ None cs); [exact I|exact H| |exact R].
+      apply default_body_bodyshape.
+  - (* OLeaf *)
+    cbn [sem ns_fmt].
+    apply (format_node_sim _ None cs); [exact I|exact H| |exact R].
+    intro o. eexists (fun s => sp_print s [PUnsafe m]), (fun s => if_detail s _), true, true, false.
+    split; [intro st; reflexivity|]. split; [hf|]. apply tail_detail; [fz|intro s; apply opaque_details_cfg].
+  - (* OWrap *)
+    cbn [sem ns_fmt].
+    apply (format_node_sim _ (Some e) []); [exact IHe|constructor| |exact R].
+    intro o. destruct p as [|x p].
+    + eexists (fun s => s), (fun s => if_detail s _), true, _, false.
+      split; [intro st; reflexivity|]. split; [hf|]. apply tail_detail; [fz|intro s; apply opaque_details_cfg].
+    + eexists (fun s => sp_print s [PUnsafe (x :: p)]), (fun s => if_detail s _), true, _, false.
+      split; [intro st; reflexivity|]. split; [hf|]. apply tail_detail; [fz|intro s; apply opaque_details_cfg].
+Qed.
+
+(* ---- 8.7 the theorems ---- *)
+(* the entries of the engine run behind %v / %s *)
+Definition sentries (e : err) (red : bool) : list fentry :=
+  fs_entries (fst (ns_fmt (sem e) true false false 0%nat (st_init red false))).
+
+Lemma final_short_sentries e red : final_short (sem e) red false = single_line red (sentries e red) [].
+Proof.
+  unfold final_short, sentries.
+  destruct (ns_fmt (sem e) true false false 0%nat (st_init red false)) as [st n]. reflexivity.
+Qed.
+
+(* the first line of %+v is formatSingleLineOutput over the detail-mode entries *)
+Theorem verbose_first_line e red :
+  exists rest, final_verbose (sem e) red = single_line red (ventries e red) [] ++ nl :: lit "(1)" ++ rest.
+Proof.
+  rewrite final_verbose_ventries. pose proof (ventries_nonempty e red) as Hne.
+  destruct (ventries e red) as [|fe r]; [contradiction|]. unfold format_entries.
+  eexists. reflexivity.
+Qed.
+
+(* FOR EVERY TREE: entry by entry, the %v run and the %+v run elide the same entries, agree
+   on redactability, and the one-line head [hs] of the %v run relates to the head [hv] of
+   the %+v run by [trich]: equal; or [hs] continues after a line break (text with a newline:
+   the rest is in the details of %+v); or [hv] is empty and [hs] is at most one byte or
+   contains a line break (text that STARTS with a newline) *)
+Theorem heads_sim e red : Forall2 erel (sentries e red) (ventries e red).
+Proof.
+  assert (R : runrel (st_init red false) (st_init red true)).
+  { unfold runrel. cbn [st_init fs_redout fs_plus fs_buf fs_entries]. repeat split. constructor. }
+  exact (proj2 (proj2 (proj2 (proj2 (sem_sim e true false 0%nat _ _ R))))).
+Qed.
+
+(* a one-line head is settled when it has no line break and is not a single byte *)
+Definition settled (fe : fentry) : bool :=
+  fe_elide fe || (no_nl (fe_head fe) && negb (Nat.eqb (List.length (fe_head fe)) 1)).
+
+Lemma settled_head hs hv :
+  trich hs hv -> no_nl hs = true -> List.length hs <> 1%nat -> hs = hv.
+Proof.
+  intros [->|[[Y ->]|[[-> L]|[-> N]]]] Hn Hl.
+  - reflexivity.
+  - rewrite no_nl_app in Hn. cbn [no_nl forallb] in Hn. rewrite N.eqb_refl in Hn.
+    cbn [negb andb] in Hn. rewrite andb_false_r in Hn. discriminate.
+  - destruct hs as [|c [|c2 r]]; cbn [List.length] in *; [reflexivity|lia|lia].
+  - congruence.
+Qed.
+
+Lemma single_line_erel red Es Ev :
+  Forall2 erel Es Ev -> forallb settled Es = true ->
+  forall acc, single_line red Es acc = single_line red Ev acc.
+Proof.
+  induction 1 as [|es ev Es Ev (A & B & C) H IH]; intros Hs acc; [reflexivity|].
+  cbn [forallb] in Hs. apply andb_true_iff in Hs as [Hs1 Hs2].
+  cbn [single_line]. rewrite <- A. destruct (fe_elide es) eqn:El; [now apply IH|].
+  unfold settled in Hs1. rewrite El in Hs1. cbn [orb] in Hs1. apply andb_true_iff in Hs1 as [N L].
+  apply negb_true_iff, PeanoNat.Nat.eqb_neq in L.
+  pose proof (settled_head _ _ C N L) as E. rewrite <- E.
+  unfold out_bytes. rewrite <- B. destruct (fe_head es); now apply IH.
+Qed.
+
+(* (2) the link between the first line of %+v and the %v rendering *)
+Theorem verbose_first_line_is_short e red :
+  forallb settled (sentries e red) = true ->
+  single_line red (ventries e red) [] = final_short (sem e) red false.
+Proof.
+  intro H. rewrite final_short_sentries. symmetry. apply single_line_erel; [apply heads_sim|exact H].
+Qed.
+
+Corollary plain_verbose_starts_with_short e :
+  forallb settled (sentries e false) = true ->
+  exists rest, fmt_plain_verbose e = fmt_plain_short e ++ nl :: lit "(1)" ++ rest.
+Proof.
+  intro H. destruct (verbose_first_line e false) as [rest E]. exists rest.
+  unfold fmt_plain_verbose, fmt_plain_short. now rewrite E, verbose_first_line_is_short.
+Qed.
+
+(* with ShortText.fmt_plain_short_is_error_text (C09_v_s): %+v starts with the Error() text *)
+Corollary plain_verbose_starts_with_error_text e :
+  plain_tree e = true -> forallb settled (sentries e false) = true ->
+  exists rest, fmt_plain_verbose e = error_text e ++ nl :: lit "(1)" ++ rest.
+Proof.
+  intros Hp H. destruct (plain_verbose_starts_with_short e H) as [rest E]. exists rest.
+  now rewrite E, fmt_plain_short_is_error_text.
+Qed.
+
+(* ---- the hypothesis cannot be dropped ---- *)
+(* a message that starts with a newline: %v has no line break, yet the first line of %+v differs *)
+Definition ex_leading_nl : err := Leaf 100%positive (LErrString (nl :: lit "b")).
+
+Example first_line_not_short :
+  fmt_plain_short ex_leading_nl = lit "b" /\
+  no_nl (fmt_plain_short ex_leading_nl) = true /\
+  single_line false (ventries ex_leading_nl false) [] = [] /\
+  fmt_plain_verbose ex_leading_nl = nl :: lit "(1) b" ++ nl :: lit "Error types: (1) *errors.errorString" /\
+  error_text ex_leading_nl = nl :: lit "b" /\
+  forallb settled (sentries ex_leading_nl false) = false.
+Proof. vm_compute. repeat split. Qed.
+
+(* a prefix with a newline: the first line of %+v is not the first line of %v either *)
+Definition ex_prefix_nl : err :=
+  Wrap 101%positive (WPrefix (lit "a" ++ nl :: lit "b")) (Leaf 100%positive (LErrString (lit "c"))).
+
+Example first_line_not_first_line_of_short :
+  fmt_plain_short ex_prefix_nl = lit "a" ++ nl :: lit "b: c" /\
+  single_line false (ventries ex_prefix_nl false) [] = lit "a: c" /\
+  fmt_plain_verbose ex_prefix_nl =
+    lit "a: c" ++ nl :: lit "(1) ab" ++ nl :: lit "Wraps: (2) c" ++ nl ::
+    lit "Error types: (1) *errutil.withPrefix (2) *errors.errorString".
+Proof. vm_compute. repeat split. Qed.
+
+(* a join: its one-line head has a line break; the first line of %+v is its first line *)
+Example ex_tree_first_line :
+  fmt_plain_short ex_tree = lit "x" ++ nl :: lit "context deadline exceeded" /\
+  single_line false (ventries ex_tree false) [] = lit "x" /\
+  forallb settled (sentries ex_tree false) = false.
+Proof. vm_compute. repeat split. Qed.
+
+(* the regular case *)
+Example ex_chain_first_line :
+  plain_tree ex_chain = true /\ forallb settled (sentries ex_chain false) = true /\
+  error_text ex_chain = lit "boom" /\
+  single_line false (ventries ex_chain false) [] = lit "boom".
+Proof. vm_compute. repeat split. Qed.
+
+(* a weaker hypothesis, on both runs: a single-byte one-line head is fine when the %+v head
+   is not empty (the exception is only the text "\n" + one byte) *)
+Fixpoint settled2 (Es Ev : list fentry) : bool :=
+  match Es, Ev with
+  | es :: Es', ev :: Ev' =>
+    (fe_elide es ||
+     (no_nl (fe_head es) &&
+      (negb (Nat.eqb (List.length (fe_head es)) 1) || negb (is_empty (fe_head ev))))) &&
+    settled2 Es' Ev'
+  | _, _ => true
+  end.
+
+Lemma settled_head2 hs hv :
+  trich hs hv -> no_nl hs = true -> (List.length hs <> 1%nat \/ hv <> []) -> hs = hv.
+Proof.
+  intros [->|[[Y ->]|[[-> L]|[-> N]]]] Hn Hl.
+  - reflexivity.
+  - rewrite no_nl_app in Hn. cbn [no_nl forallb] in Hn. rewrite N.eqb_refl in Hn.
+    cbn [negb andb] in Hn. rewrite andb_false_r in Hn. discriminate.
+  - destruct Hl as [Hl|Hl]; [|contradiction].
+    destruct hs as [|c [|c2 r]]; cbn [List.length] in *; [reflexivity|lia|lia].
+  - congruence.
+Qed.
+
+Lemma single_line_erel2 red Es Ev :
+  Forall2 erel Es Ev -> settled2 Es Ev = true ->
+  forall acc, single_line red Es acc = single_line red Ev acc.
+Proof.
+  induction 1 as [|es ev Es Ev (A & B & C) H IH]; intros Hs acc; [reflexivity|].
+  cbn [settled2] in Hs. apply andb_true_iff in Hs as [Hs1 Hs2].
+  cbn [single_line]. rewrite <- A. destruct (fe_elide es) eqn:El; [now apply IH|].
+  cbn [orb] in Hs1. apply andb_true_iff in Hs1 as [N L].
+  assert (E : fe_head es = fe_head ev).
+  { apply settled_head2; [exact C|exact N|].
+    apply orb_true_iff in L as [L|L]; apply negb_true_iff in L.
+    - left. now apply PeanoNat.Nat.eqb_neq.
+    - right. intro X. rewrite X in L. discriminate. }
+  rewrite <- E. unfold out_bytes. rewrite <- B. destruct (fe_head es); now apply IH.
+Qed.
+
+Theorem verbose_first_line_is_short2 e red :
+  settled2 (sentries e red) (ventries e red) = true ->
+  single_line red (ventries e red) [] = final_short (sem e) red false.
+Proof.
+  intro H. rewrite final_short_sentries. symmetry. apply single_line_erel2; [apply heads_sim|exact H].
+Qed.
+
+(* a chain that ends in a one-byte message *)
+Example ex_one_byte :
+  let e := Wrap 2%positive (WHint (lit "h")) (ex_leaf 1%positive "x") in
+  forallb settled (sentries e false) = false /\ settled2 (sentries e false) (ventries e false) = true /\
+  single_line false (ventries e false) [] = lit "x" /\ fmt_plain_short e = lit "x".
+Proof. vm_compute. repeat split. Qed.
+
+(* the 'Error types' line and the entries follow the visit order of Report.visit_all
+   exactly when no node has two or more branches *)
+Corollary ventries_types_chainlike e red :
+  chainlike e = true -> List.map fe_ty (ventries e red) = List.map go_type_string (visit_all e).
+Proof. intro H. rewrite ventries_types. now rewrite engine_order_chainlike. Qed.
